@@ -10,6 +10,27 @@ The only rewrite: an accumulator loop is read as the comprehension it spells out
 Conditions: the `for` statement follows the `xs = []` / `xs = list()` / `xs = set()` assignment directly in the same block;
 the loop nest consists of `for` (no else, simple or tuple targets) and `if` (no else) statements with exactly one statement
 each, ending in `xs.append(E)` / `xs.add(E)`; `xs` is not mentioned anywhere else in the loop.  Anything else is left as it is.
+A second rewrite reads the hand-written window loop
+
+    flag = True                                    yield from takewhile(lambda x: not B, dropwhile(lambda x: P, xs))
+    for x in xs:                          ==>      (or  acc = list(...)  for the append form)
+        if flag:
+            if P: continue
+            flag = False
+        if B: break
+        yield x            # or acc.append(x)
+
+as the itertools expression it re-implements (the flag may also start False and be tested with `not`).
+A third one reads the hand-written grouping of adjacent equal keys
+
+    G = []
+    for x in XS:
+        if G and K(G[0]) != K(x):                ==>     yield from (E(G) for _, G in groupby(XS, K))
+            yield E(G); G = []
+        G.append(x)
+    if G: yield E(G)
+
+as `itertools.groupby`.
 Several such loops in a row that fill the same list become `xs = [..] + [..]`.
 Line numbers of the comprehension are those of the loop, so reports still point at the construct.
 """
@@ -68,12 +89,180 @@ def _as_comprehension(loop: ast.For, acc: str, kind: str) -> Optional[ast.expr]:
     return ast.copy_location(comp, loop)
 
 
+def _bool_const(e) -> Optional[bool]:
+    return e.value if isinstance(e, ast.Constant) and isinstance(e.value, bool) else None
+
+
+def _window_loop(flag_stmt: ast.stmt, loop: ast.stmt, acc: Optional[str]):
+    """flag = <bool>; for x in xs: [if <still skipping>: [if P: continue]; flag = <flipped>]; [if B: break]; <emit x>
+       ->  (xs expression, P or None, B or None, loop variable, kind 'yield'|'append')   - or None"""
+    if not (isinstance(flag_stmt, ast.Assign) and len(flag_stmt.targets) == 1 and isinstance(flag_stmt.targets[0], ast.Name)
+            and _bool_const(flag_stmt.value) is not None):
+        return None
+    flag, init = flag_stmt.targets[0].id, _bool_const(flag_stmt.value)
+    if not (isinstance(loop, ast.For) and not loop.orelse and isinstance(loop.target, ast.Name) and 2 <= len(loop.body) <= 3):
+        return None
+    x = loop.target.id
+    body = list(loop.body)
+    first = body[0]
+    # still-skipping test: `flag` when it starts True, `not flag` when it starts False
+    if not isinstance(first, ast.If) or first.orelse:
+        return None
+    t = first.test
+    skipping = (isinstance(t, ast.Name) and t.id == flag and init is True) or \
+        (isinstance(t, ast.UnaryOp) and isinstance(t.op, ast.Not) and isinstance(t.operand, ast.Name) and t.operand.id == flag
+         and init is False)
+    if not skipping or len(first.body) != 2:
+        return None
+    inner, flip = first.body
+    if not (isinstance(inner, ast.If) and not inner.orelse and len(inner.body) == 1 and isinstance(inner.body[0], ast.Continue)):
+        return None
+    if not (isinstance(flip, ast.Assign) and len(flip.targets) == 1 and isinstance(flip.targets[0], ast.Name)
+            and flip.targets[0].id == flag and _bool_const(flip.value) is (not init)):
+        return None
+    P = inner.test
+    rest = body[1:]
+    B = None
+    if len(rest) == 2:
+        brk = rest[0]
+        if not (isinstance(brk, ast.If) and not brk.orelse and len(brk.body) == 1 and isinstance(brk.body[0], ast.Break)):
+            return None
+        B = brk.test
+        rest = rest[1:]
+    emit = rest[0]
+    kind = None
+    if isinstance(emit, ast.Expr) and isinstance(emit.value, ast.Yield) and isinstance(emit.value.value, ast.Name) \
+            and emit.value.value.id == x and acc is None:
+        kind = "yield"
+    elif acc is not None and isinstance(emit, ast.Expr) and isinstance(emit.value, ast.Call) \
+            and isinstance(emit.value.func, ast.Attribute) and isinstance(emit.value.func.value, ast.Name) \
+            and emit.value.func.value.id == acc and emit.value.func.attr == "append" and len(emit.value.args) == 1 \
+            and isinstance(emit.value.args[0], ast.Name) and emit.value.args[0].id == x:
+        kind = "append"
+    if kind is None:
+        return None
+    # the flag (and the accumulator) must not be used anywhere else in the loop
+    if _mentions(loop, flag) != 2 or (acc is not None and _mentions(loop, acc) != 1):
+        return None
+    return loop.iter, P, B, x, kind
+
+
+def _window_expr(xs, P, B, x):
+    """takewhile(lambda x: not B, dropwhile(lambda x: P, xs)) spelled with analysis-internal names (no import needed)"""
+    def lam(body):
+        return ast.Lambda(args=ast.arguments(posonlyargs=[], args=[ast.arg(arg=x)], kwonlyargs=[], kw_defaults=[], defaults=[]),
+                          body=body)
+    e = ast.Call(func=ast.Name(id="__sa_dropwhile__", ctx=ast.Load()), args=[lam(P), xs], keywords=[])
+    if B is not None:
+        e = ast.Call(func=ast.Name(id="__sa_takewhile__", ctx=ast.Load()),
+                     args=[lam(ast.UnaryOp(op=ast.Not(), operand=B)), e], keywords=[])
+    return e
+
+
+def _manual_groupby(init: ast.stmt, loop: ast.stmt, tail: ast.stmt):
+    """G = []; for x in XS: (if G and K(G[0]) != K(x): yield E(G); G = []); G.append(x)   followed by   if G: yield E(G)
+       ->  (XS, K, E, G)  - or None"""
+    acc = _empty_acc(init)
+    if acc is None or acc[1] != "list":
+        return None
+    G = acc[0]
+    if not (isinstance(loop, ast.For) and not loop.orelse and isinstance(loop.target, ast.Name) and len(loop.body) == 2):
+        return None
+    x = loop.target.id
+    flush, app = loop.body
+    if not (isinstance(app, ast.Expr) and isinstance(app.value, ast.Call) and isinstance(app.value.func, ast.Attribute)
+            and isinstance(app.value.func.value, ast.Name) and app.value.func.value.id == G and app.value.func.attr == "append"
+            and len(app.value.args) == 1 and isinstance(app.value.args[0], ast.Name) and app.value.args[0].id == x):
+        return None
+    if not (isinstance(flush, ast.If) and not flush.orelse and len(flush.body) == 2 and isinstance(flush.test, ast.BoolOp)
+            and isinstance(flush.test.op, ast.And) and len(flush.test.values) == 2):
+        return None
+    nonempty, differs = flush.test.values
+    if not (isinstance(nonempty, ast.Name) and nonempty.id == G):
+        return None
+    cmp = differs
+    negate = False
+    if isinstance(cmp, ast.UnaryOp) and isinstance(cmp.op, ast.Not):
+        cmp, negate = cmp.operand, True
+    if not (isinstance(cmp, ast.Compare) and len(cmp.ops) == 1 and len(cmp.comparators) == 1):
+        return None
+    is_ne = isinstance(cmp.ops[0], ast.NotEq) and not negate or isinstance(cmp.ops[0], ast.Eq) and negate
+    if not is_ne:
+        return None
+    a, b = cmp.left, cmp.comparators[0]
+
+    def key_of(call, arg_pred):
+        if isinstance(call, ast.Call) and len(call.args) == 1 and not call.keywords and arg_pred(call.args[0]):
+            return call.func
+        return None
+
+    def is_member(e):      # G[0] / G[-1]
+        return isinstance(e, ast.Subscript) and isinstance(e.value, ast.Name) and e.value.id == G
+
+    def is_x(e):
+        return isinstance(e, ast.Name) and e.id == x
+    K = None
+    for p, q in ((a, b), (b, a)):
+        k1, k2 = key_of(p, is_member), key_of(q, is_x)
+        if k1 is not None and k2 is not None and ast.dump(k1) == ast.dump(k2):
+            K = k1
+    if K is None:
+        return None
+    y, reset = flush.body
+    if not (isinstance(y, ast.Expr) and isinstance(y.value, ast.Yield) and y.value.value is not None):
+        return None
+    if _empty_acc(reset) is None or _empty_acc(reset)[0] != G:
+        return None
+    E = y.value.value
+    if not (isinstance(tail, ast.If) and not tail.orelse and len(tail.body) == 1 and isinstance(tail.test, ast.Name)
+            and tail.test.id == G and isinstance(tail.body[0], ast.Expr) and isinstance(tail.body[0].value, ast.Yield)
+            and tail.body[0].value.value is not None and ast.dump(tail.body[0].value.value) == ast.dump(E)):
+        return None
+    return loop.iter, K, E, G
+
+
 class _Desugar(ast.NodeTransformer):
     def _block(self, stmts: List[ast.stmt]) -> List[ast.stmt]:
         out: List[ast.stmt] = []
         i = 0
         while i < len(stmts):
             s = stmts[i]
+            # grouping of adjacent equal keys written by hand
+            if i + 2 < len(stmts):
+                mg = _manual_groupby(s, stmts[i + 1], stmts[i + 2])
+                if mg is not None:
+                    xs, K, E, G = mg
+                    gb = ast.Call(func=ast.Name(id="__sa_groupby__", ctx=ast.Load()), args=[xs, K], keywords=[])
+                    target = ast.Tuple(elts=[ast.Name(id="__sa_key__", ctx=ast.Store()), ast.Name(id=G, ctx=ast.Store())],
+                                       ctx=ast.Store())
+                    gen = ast.GeneratorExp(elt=E, generators=[ast.comprehension(target=target, iter=gb, ifs=[], is_async=0)])
+                    new = ast.Expr(value=ast.YieldFrom(value=gen))
+                    ast.copy_location(new, stmts[i + 1])
+                    ast.fix_missing_locations(new)
+                    out.append(new)
+                    i += 3
+                    continue
+            # "skip while P, then take until B" written with a state flag
+            acc0 = _empty_acc(s)
+            if acc0 is not None and acc0[1] == "list" and i + 2 < len(stmts):
+                w = _window_loop(stmts[i + 1], stmts[i + 2], acc0[0])
+                if w is not None and w[4] == "append":
+                    value = ast.Call(func=ast.Name(id="list", ctx=ast.Load()), args=[_window_expr(*w[:4])], keywords=[])
+                    new = ast.Assign(targets=[ast.Name(id=acc0[0], ctx=ast.Store())], value=value)
+                    ast.copy_location(new, stmts[i + 2])
+                    ast.fix_missing_locations(new)
+                    out.append(new)
+                    i += 3
+                    continue
+            if i + 1 < len(stmts):
+                w = _window_loop(s, stmts[i + 1], None)
+                if w is not None and w[4] == "yield":
+                    new = ast.Expr(value=ast.YieldFrom(value=_window_expr(*w[:4])))
+                    ast.copy_location(new, stmts[i + 1])
+                    ast.fix_missing_locations(new)
+                    out.append(new)
+                    i += 2
+                    continue
             acc = _empty_acc(s)
             if acc is not None and i + 1 < len(stmts) and isinstance(stmts[i + 1], ast.For):
                 comp = _as_comprehension(stmts[i + 1], acc[0], acc[1])
